@@ -2079,7 +2079,11 @@ func (m *metadataAPI) checkResumeStreamPreconditions(op *proto.RaftLog) error {
 // the partition doesn't exist, it returns ErrPartitionNotFound. Otherwise, it
 // returns nil.
 func (m *metadataAPI) checkShrinkISRPreconditions(op *proto.RaftLog) error {
-	return m.partitionExists(op.ShrinkISROp.Stream, op.ShrinkISROp.Partition)
+	if err := m.partitionExists(op.ShrinkISROp.Stream, op.ShrinkISROp.Partition); err != nil {
+		return err
+	}
+	return m.checkLeaderGeneration(op.ShrinkISROp.Stream, op.ShrinkISROp.Partition,
+		op.ShrinkISROp.Leader, op.ShrinkISROp.LeaderEpoch)
 }
 
 // checkExpandISRPreconditions checks if the partition whose ISR is being
@@ -2087,7 +2091,29 @@ func (m *metadataAPI) checkShrinkISRPreconditions(op *proto.RaftLog) error {
 // If the partition doesn't exist, it returns ErrPartitionNotFound. Otherwise,
 // it returns nil.
 func (m *metadataAPI) checkExpandISRPreconditions(op *proto.RaftLog) error {
-	return m.partitionExists(op.ExpandISROp.Stream, op.ExpandISROp.Partition)
+	if err := m.partitionExists(op.ExpandISROp.Stream, op.ExpandISROp.Partition); err != nil {
+		return err
+	}
+	return m.checkLeaderGeneration(op.ExpandISROp.Stream, op.ExpandISROp.Partition,
+		op.ExpandISROp.Leader, op.ExpandISROp.LeaderEpoch)
+}
+
+// checkLeaderGeneration checks that the given leader and leader epoch are the
+// partition's current ones. ShrinkISR and ExpandISR compare them when a request
+// arrives, but the partition leader can change before the operation is
+// proposed to Raft. As a precondition of the Raft operation the comparison is
+// atomic with respect to leader changes, so an ISR change requested by a
+// leader that has been replaced in the meantime is refused.
+func (m *metadataAPI) checkLeaderGeneration(streamName string, partitionID int32, leader string, epoch uint64) error {
+	partition := m.GetPartition(streamName, partitionID)
+	if partition == nil {
+		return ErrPartitionNotFound
+	}
+	if currentLeader, currentEpoch := partition.GetLeader(); leader != currentLeader || epoch != currentEpoch {
+		return fmt.Errorf("Leader generation mismatch, current leader: %s epoch: %d, got leader: %s epoch: %d",
+			currentLeader, currentEpoch, leader, epoch)
+	}
+	return nil
 }
 
 // checkChangeLeaderPreconditions checks if the partition whose leader is being
